@@ -23,7 +23,7 @@ func init() {
 	Register(&Prop{
 		ID:    "C13",
 		Title: "Block emission is non-increasing, non-negative and fully distributed",
-		Cases: func(t string) int { return tierN(t, 96, 900) },
+		Cases: func(t string) int { return tierN(t, 96, 3000) },
 		Run:   runC13,
 		Rule: "case = one jklmint parameter set (TokensPerBlock x MintDecrease x ratio triple with sum<=100 x mint denom, drawn from a boundary grid by the PRNG) run for 40..400 (thorough: ..2000) consecutive blocks, optionally with one governance parameter change mid-run and (30% of the cases) one export -> restart from the exported genesis in the middle of the run; " +
 			"every block is one oracle evaluation (supply delta = coinbase = MintedTokens query, 0<=E_h<=E_{h-1}, exact floor split to fee collector / dev grants / stipend, module remainder, no other account credited); " +
